@@ -12,7 +12,7 @@ import (
 func init() {
 	register(&Prop{
 		ID:             "C16",
-		Pkgs:           []string{"service/transaction", "service/contract", "service/state", "icon/iiss"},
+		Pkgs:           []string{"service/transaction", "service/contract", "service/state", "icon/iiss", "icon/iiss/icstate"},
 		Run:            runC16,
 		MinObligations: 16,
 		Technique:      "static analysis: guard dominance (logs/messages only on success, rollback only on failure), must-pass-through of the snapshot restore on every failing/unwinding path of the call-frame stack, pairing of the status transition with the world-state rollback, balance re-read after rollback",
@@ -33,6 +33,20 @@ func init() {
 }
 
 func runC16(c *Ctx) {
+	runC16Second(c)
+	// the account/world Reset rules of C14 are what a rollback rests on
+	if !c.Sub {
+		sub := &Ctx{Prop: c.Prop, Tier: c.Tier, L: c.L, Sub: true}
+		runC14(sub)
+		for _, o := range sub.obs {
+			if strings.HasPrefix(o.Rule, "C14.snapshot-reset-symmetry") || strings.HasPrefix(o.Rule, "C14.reset-complete") || strings.HasPrefix(o.Rule, "C14.world-symmetry") || strings.HasPrefix(o.Rule, "C14.last-accounts") {
+				o2 := *o
+				o2.Rule = "C16.rollback-state/" + strings.TrimPrefix(o.Rule, "C14.")
+				c.obs = append(c.obs, &o2)
+			}
+		}
+		c.callSites += sub.callSites
+	}
 	runC16Extra(c)
 	ex := c.mustFn("service/transaction", "transactionHandler", "Execute")
 	if ex != nil {
@@ -343,4 +357,97 @@ func runC16Extra(c *Ctx) {
 				wTrue("patch", `^\$2$`), wSame("not blocked", `^\$r\.checkBlocked\(\$0\)$`, `^nil$`))
 		}
 	}
+}
+
+// runC16Second: rules added for the second list of independent mutants —
+// the other state objects a rollback goes through. (1) every BTP state method
+// that changes a map or field of the state marks it dirty (Reset compares the
+// cached snapshot pointer and skips the restore for a clean state); (2) the
+// copy-on-write clone of a validator list owns its slice; (3) no Reset of an
+// IISS cache writes pending entries through (Flush) instead of dropping them.
+func runC16Second(c *Ctx) {
+	nM := 0
+	for _, f := range c.pkgFuncs("service/state") {
+		if f.Signature.Recv() == nil || namedOf(f.Signature.Recv().Type()) != "BTPStateImpl" || f.Parent() != nil {
+			continue
+		}
+		switch f.Name() {
+		case "markDirty", "GetSnapshot", "Reset":
+			continue
+		}
+		isMark := func(in ssa.Instruction) bool {
+			cl, ok := in.(*ssa.Call)
+			return ok && methodName(cl.Common()) == "markDirty"
+		}
+		for _, b := range f.Blocks {
+			for _, in := range b.Instrs {
+				var what string
+				switch x := in.(type) {
+				case *ssa.MapUpdate:
+					if strings.HasPrefix(render(x.Map), "$r.") {
+						what = render(x.Map)
+					}
+				case *ssa.Store:
+					if fa, ok := x.Addr.(*ssa.FieldAddr); ok && render(fa.X) == "$r" && fieldName(fa.X.Type(), fa.Field) != "last" {
+						what = "field " + fieldName(fa.X.Type(), fa.Field)
+					}
+				}
+				if what == "" {
+					continue
+				}
+				nM++
+				marked := false
+				for _, bb := range f.Blocks {
+					for _, mi := range bb.Instrs {
+						if isMark(mi) && dominatesInstr(mi, in) {
+							marked = true
+						}
+					}
+				}
+				if !marked {
+					_, stale := pathAvoiding(f, in, isReturn, isMark)
+					marked = !stale
+				}
+				c.check(marked, "C16.btp-dirty", fnName(f)+" marks the BTP state dirty when it changes "+what, in.Pos(), "markDirty()", "the BTP state changes "+what+" without being marked dirty: Reset to the snapshot taken before the failed transaction finds `last == snapshot` and restores nothing")
+			}
+		}
+	}
+	if nM < 5 {
+		c.undecided("C16.btp-dirty", "BTP state mutations", token.NoPos, fmt.Sprintf("expected ≥5, found %d", nM))
+	}
+	if f := c.mustFn("service/state", "validatorList", "clone"); f != nil {
+		n := 0
+		for _, st := range fieldStores([]*ssa.Function{f}, "validatorList", "validators") {
+			n++
+			fresh := false
+			switch x := st.Store.Val.(type) {
+			case *ssa.Call:
+				if calleeName(x.Common()) == "builtin:append" {
+					_, a := callArgs(x.Common())
+					fresh = isNilConst(a[0])
+					if ms, ok := a[0].(*ssa.MakeSlice); ok {
+						_ = ms
+						fresh = true
+					}
+				}
+			case *ssa.MakeSlice:
+				fresh = true
+			}
+			c.check(fresh, "C16.clone-owns", "validatorList.clone gives the copy its own slice", st.Store.Pos(), "append([]*validator(nil), …)", "the clone shares "+render(st.Store.Val)+" with the snapshot: changes of a failed transaction write through into the snapshot Reset reinstalls")
+		}
+		if n == 0 {
+			c.undecided("C16.clone-owns", "validatorList.clone", f.Pos(), "no store to validators")
+		}
+	}
+	nR := 0
+	for _, f := range c.pkgFuncs("icon/iiss/icstate") {
+		if f.Name() != "Reset" || f.Signature.Recv() == nil || f.Parent() != nil {
+			continue
+		}
+		nR++
+		for _, cs := range c.calls(f, byMethod("Flush")) {
+			c.violate("C16.reset-drops", fnName(f)+" discards pending changes", cs.Pos(), "Reset calls Flush: the changes of the failed transaction are written through instead of being dropped")
+		}
+	}
+	c.check(nR >= 3, "C16.reset-drops", "Reset functions of the IISS caches examined", token.NoPos, fmt.Sprintf("%d, none flushes", nR), fmt.Sprintf("only %d Reset functions found", nR))
 }
